@@ -596,6 +596,16 @@ def c11(tier, seed):
         rep.notes.append(f"Apalache (GenInd.tla, all 65536 generation values symbolic, unbounded behaviours): {what}")
     rep.extra["symbolic_obligations"] = 2
     import shutil
+    d = os.path.join(apa, "tlaps")
+    os.makedirs(d, exist_ok=True)
+    for f in ("GenInd.tla", "GenIndProof.tla"):
+        shutil.copy(os.path.join(cb.SPEC, f), d)
+    p = cb.run(["timeout", "900", "tlapm", "--threads", "8", "--cleanfp", "GenIndProof.tla"], cwd=d, timeout=950)
+    m = re.search(r"All (\d+) obligations proved", p.stdout + p.stderr)
+    if not m:
+        raise ToolError("tlapm: GenIndProof.tla is not proved:\n" + (p.stdout + p.stderr)[-1500:])
+    rep.notes.append(f"TLAPS (GenIndProof.tla): Spec => []GenProtocol for all 65536 values, all {m.group(1)} obligations proved ({p.wall:.0f}s)")
+    rep.extra["symbolic_obligations"] += int(m.group(1))
     shutil.rmtree(apa, ignore_errors=True)
     # real write() from every start value
     res = seg_json(["gensweep"], timeout=900)
